@@ -535,6 +535,389 @@ Section SeekProofs.
     - intros t Ht. cbn. apply replay_prefix_lemma. exact Ht.
   Qed.
 
+  (* ---------------------------------------------------------------- nearest-checkpoint lookup *)
+
+  Definition n_eq := ol_eq _ N_order.
+  Definition n_as := ol_antisym _ N_order.
+  Definition n_tr := ol_trans _ N_order.
+
+  Notation cps_sorted := (sorted (V := N * wstate) N.compare).
+
+  Lemma cp_before_nearest (cps : list (N * (N * wstate))) tick : cps_sorted cps ->
+    match cp_before St cps tick with
+    | Some (t, c) => In (t, c) cps /\ t < tick /\ forall t' c', In (t', c') cps -> t' < tick -> t' <= t
+    | None => forall t' c', In (t', c') cps -> ~ t' < tick
+    end.
+  Proof.
+    induction cps as [|[t0 c0] r IH]; intros Hs; cbn [Seek.cp_before].
+    - intros t' c' [].
+    - cbn in Hs. destruct Hs as [Hlb Hs]. specialize (IH Hs).
+      assert (Hall : forall t' c', In (t', c') r -> t0 < t').
+      { intros t' c' Hin. pose proof (lb_all N.compare n_tr t0 r Hs Hlb t' c' Hin) as H.
+        apply N.compare_lt_iff in H. exact H. }
+      destruct (t0 <? tick) eqn:E.
+      + apply N.ltb_lt in E. destruct (cp_before St r tick) as [[t c]|].
+        * destruct IH as (Hin & Hlt & Hmax). split; [right; exact Hin|]. split; [exact Hlt|].
+          intros t' c' [Heq|Hin'] Hl.
+          -- inversion Heq; subst. pose proof (Hall _ _ Hin). lia.
+          -- eapply Hmax; eauto.
+        * split; [left; reflexivity|]. split; [exact E|].
+          intros t' c' [Heq|Hin'] Hl; [inversion Heq; subst; lia|]. exfalso. eapply IH; eauto.
+      + apply N.ltb_ge in E. intros t' c' [Heq|Hin'] Hl; [inversion Heq; subst; lia|].
+        pose proof (Hall _ _ Hin'). lia.
+  Qed.
+
+  (* restore_replay_base starts from the LATEST checkpoint at or before the target (or U0 when there is none) *)
+  Theorem restore_base_nearest_lemma st b target w start :
+    cps_sorted (st_cps st) -> target < u64_max ->
+    restore_base st b target = inr (w, start) ->
+    start <= target /\
+    (forall t' c', In (t', c') (st_cps st) -> t' <= target -> t' <= start) /\
+    (start = 0 /\ w = base_from_initial St b \/ exists hash, In (start, (hash, w)) (st_cps st)).
+  Proof.
+    intros Hs Ht. unfold Seek.restore_base.
+    assert (Hlk : lookup_tick target = target + 1).
+    { unfold lookup_tick, checked_increment. apply N.ltb_lt in Ht. rewrite Ht. reflexivity. }
+    pose proof (cp_before_nearest (st_cps st) (lookup_tick target) Hs) as N.
+    destruct (cp_before St (st_cps st) (lookup_tick target)) as [[t [hash cw]]|].
+    - destruct N as (Hin & Hlt & Hmax).
+      destruct (expected_root_at St P st t); [|discriminate].
+      destruct (negb (hash =? n)); [discriminate|]. destruct (negb (ws_root St root cw =? n)); [discriminate|].
+      intros H; inversion H; subst. rewrite Hlk in *. split; [lia|]. split.
+      + intros t' c' Hin' Hle. eapply Hmax; eauto. lia.
+      + right. exists hash. exact Hin.
+    - intros H; inversion H; subst. split; [lia|]. split.
+      + intros t' c' Hin' Hle. exfalso. eapply N; eauto. rewrite Hlk. lia.
+      + left. auto.
+  Qed.
+
+  Lemma add_checkpoint_sorted st t hash cw st' :
+    cps_sorted (st_cps st) -> add_checkpoint st t hash cw = inr st' -> cps_sorted (st_cps st').
+  Proof.
+    intros Hs A. apply add_checkpoint_entries in A. destruct A as (_ & _ & _ & ->).
+    apply set_sorted; first [exact n_eq|exact n_as|exact n_tr|exact Hs].
+  Qed.
+
+  (* ---------------------------------------------------------------- what an accepted checkpoint must contain *)
+
+  Lemma art_eqb_eq a b : art_eqb a b = true -> a = b.
+  Proof.
+    destruct a as [c1 r1 p1 t1 rc1], b as [c2 r2 p2 t2 rc2]. unfold art_eqb; cbn.
+    rewrite !andb_true_iff, !N.eqb_eq. intros [[[[-> ->] ->] ->] H].
+    f_equal. destruct rc1 as [[x1 y1]|], rc2 as [[x2 y2]|]; cbn in H; try discriminate; [|reflexivity].
+    apply andb_true_iff in H. rewrite !N.eqb_eq in H. destruct H as [-> ->]. reflexivity.
+  Qed.
+
+  (* the artifacts of ticks i, i+1, ... as dictated by the entries *)
+  Fixpoint arts_spec (h : list entry) (i : N) (l : list art) : Prop :=
+    match l with
+    | [] => True
+    | a :: r => (exists e p, nthN h i = Some e /\ e_patch e = Some p /\ artifacts i e p = inr a) /\
+                arts_spec h (i + 1) r
+    end.
+
+  Lemma arts_spec_unique h : forall l1 l2 i,
+    arts_spec h i l1 -> arts_spec h i l2 -> length l1 = length l2 -> l1 = l2.
+  Proof.
+    induction l1 as [|a1 r1 IH]; intros [|a2 r2] i H1 H2 Hl; cbn in Hl; try discriminate; [reflexivity|].
+    cbn in H1, H2. destruct H1 as [(e1 & p1 & E1 & P1 & A1) S1], H2 as [(e2 & p2 & E2 & P2 & A2) S2].
+    rewrite E1 in E2. inversion E2; subst e2. rewrite P1 in P2. inversion P2; subst p2.
+    rewrite A1 in A2. inversion A2; subst a2. f_equal. eapply IH; eauto.
+  Qed.
+
+  Lemma arts_spec_app h : forall l1 l2 i,
+    arts_spec h i l1 -> arts_spec h (i + N.of_nat (length l1)) l2 -> arts_spec h i (l1 ++ l2).
+  Proof.
+    induction l1 as [|a r IH]; intros l2 i H1 H2; cbn in *.
+    - replace (i + 0) with i in H2 by lia. exact H2.
+    - destruct H1 as [Ha Hr]. split; [exact Ha|]. apply IH; [exact Hr|].
+      replace (i + 1 + N.of_nat (length r)) with (i + N.pos (Pos.of_succ_nat (length r))) by lia. exact H2.
+  Qed.
+
+  Lemma check_hist_spec h : forall l i,
+    check_hist P p_digest_field p_digest_calc p_decision h i l = None -> arts_spec h i l.
+  Proof.
+    induction l as [|a r IH]; intros i H; cbn in *; [exact I|].
+    destruct (nthN h i) as [e|] eqn:E; [|discriminate].
+    destruct (e_patch e) as [p|] eqn:EP; [|discriminate].
+    destruct (artifacts i e p) as [err|a'] eqn:A; [discriminate|].
+    destruct (art_eqb a a') eqn:AE; [|discriminate]. apply art_eqb_eq in AE. subst a'.
+    split; [exists e, p; auto|]. apply IH. exact H.
+  Qed.
+
+  Lemma advance_one_art i e w w' :
+    advance_one i e w = (w', None) ->
+    exists p a, e_patch e = Some p /\ artifacts i e p = inr a /\ ws_hist w' = ws_hist w ++ [a] /\
+                ws_last w' = ws_last w /\ ws_mat w' = ws_mat w /\ ws_tx w' = ws_tx w.
+  Proof.
+    unfold Seek.advance_one. destruct (e_patch e) as [p|]; [|discriminate].
+    destruct (apply (ws_state w) p) as [s'|s']; [|discriminate].
+    destruct (negb (root s' =? e_root e)); [discriminate|].
+    destruct (negb (commit_hash (root s') (e_parents e) (e_pdig e) (p_policy p) =? e_commit e)); [discriminate|].
+    destruct (artifacts i e p) as [err|a] eqn:A; [discriminate|].
+    intros H; inversion H; subst; cbn. exists p, a. repeat split; auto.
+  Qed.
+
+  (* everything a successful loop of n >= 1 ticks establishes *)
+  Lemma advance_loop_full h n : forall i w l w' l',
+    advance_loop h n i w l = (w', l', None) ->
+    exists arts, ws_hist w' = ws_hist w ++ arts /\ length arts = n /\ arts_spec h i arts /\
+      (n <> O -> exists e, l' = Some e /\ nthN h (i + N.of_nat n - 1) = Some e /\ ws_root St root w' = e_root e).
+  Proof.
+    induction n as [|n IH]; intros i w l w' l' H.
+    - cbn in H. inversion H; subst. exists []. rewrite app_nil_r. repeat split; auto. congruence.
+    - cbn [Seek.advance_loop] in H. destruct (nthN h i) as [e|] eqn:E; [|discriminate].
+      destruct (advance_one i e w) as [w1 [err|]] eqn:A1; [discriminate|].
+      pose proof (advance_one_ok _ _ _ _ A1) as (_ & _ & _ & Hroot).
+      pose proof (advance_one_art _ _ _ _ A1) as (p & a & EP & AR & Hh & _).
+      pose proof (IH _ _ _ _ _ H) as (arts & Hh' & Hl & Hsp & Hlast).
+      exists (a :: arts). split; [rewrite Hh', Hh, <- app_assoc; reflexivity|]. split; [cbn; congruence|].
+      split; [cbn; split; [exists e, p; auto|exact Hsp]|].
+      intros _. destruct n as [|n'].
+      + cbn in H. inversion H; subst. exists e. split; [reflexivity|]. split; [|exact Hroot].
+        replace (i + N.of_nat 1 - 1) with i by lia. exact E.
+      + destruct Hlast as (e' & -> & Hn & Hr); [congruence|]. exists e'. split; [reflexivity|]. split; [|exact Hr].
+        replace (i + N.of_nat (Datatypes.S (Datatypes.S n')) - 1) with (i + 1 + N.of_nat (Datatypes.S n') - 1) by lia.
+        exact Hn.
+  Qed.
+
+  Lemma last_opt_app {A} (l : list A) x : last_opt (l ++ [x]) = Some x.
+  Proof. unfold last_opt. destruct l as [|y l]; [reflexivity|]. cbn [app]. f_equal. apply last_last. Qed.
+
+  (* closed description of the replayed state of tick t >= 1 *)
+  Lemma replay_fields h b t w : t <> 0 -> replay h b t = (w, None) ->
+    exists e, nthN h (t - 1) = Some e /\
+      ws_root St root w = e_root e /\ ws_mat w = e_out e /\ ws_tx w = t /\ ws_last w = last_opt (ws_hist w) /\
+      ws_last w <> None /\
+      lenN (ws_hist w) = t /\ arts_spec h 0 (ws_hist w) /\ ws_warp w = ws_warp b /\ ws_init w = ws_init b.
+  Proof.
+    intros Ht R. pose proof (replay_tick _ _ _ _ R) as (Htk & Hw & Hi).
+    rewrite replay_unfold in R by exact Ht.
+    destruct (advance_loop h (N.to_nat t) 0 (base_from_initial St b) None) as [[w' l] [err|]] eqn:L; [discriminate|].
+    inversion R; subst w. clear R.
+    pose proof (advance_loop_full _ _ _ _ _ _ _ L) as (arts & Hh & Hl & Hsp & Hlast).
+    destruct Hlast as (e & -> & Hn & Hr); [lia|]. cbn [base_from_initial ws_hist app] in Hh.
+    exists e. replace (0 + N.of_nat (N.to_nat t) - 1) with (t - 1) in Hn by lia.
+    unfold Seek.finalize in *. destruct (t =? 0) eqn:E; [apply N.eqb_eq in E; lia|].
+    unfold ws_root in *. cbn in *. rewrite Hh. repeat split; auto.
+    - destruct arts as [|a r]; [cbn in Hl; lia|]. cbn. discriminate.
+    - unfold lenN. rewrite Hl. lia.
+  Qed.
+
+  Record same_but_roots (cw w : wstate) : Prop := {
+    sr_warp : ws_warp cw = ws_warp w;
+    sr_hist : ws_hist cw = ws_hist w;
+    sr_last : ws_last cw = ws_last w;
+    sr_mat : ws_mat cw = ws_mat w;
+    sr_tx : ws_tx cw = ws_tx w;
+    sr_state_root : root (ws_state cw) = root (ws_state w);
+    sr_init_root : root (ws_init cw) = root (ws_init w)
+  }.
+
+  Lemma opt_art_eqb_eq a b : opt_art_eqb a b = true -> a = b.
+  Proof. destruct a, b; cbn; try discriminate; auto. intros H. apply art_eqb_eq in H. congruence. Qed.
+
+  (* checkpoint_sound: whatever add_checkpoint accepts for tick t agrees with the replayed state of tick t on
+     every field; the two graph components (state, U0) are pinned through their roots *)
+  Theorem checkpoint_sound_lemma st b t hash cw st' w :
+    verifies (st_entries st) b -> base_ok st b ->
+    add_checkpoint st t hash cw = inr st' ->
+    replay (st_entries st) b t = (w, None) ->
+    t <= st_len St P st /\ hash = ws_root St root cw /\ same_but_roots cw w.
+  Proof.
+    intros V [Hcanon Hbase] A R. unfold Seek.add_checkpoint in A.
+    destruct (validate_checkpoint st t hash cw) eqn:VC; [discriminate|]. clear A.
+    unfold Seek.validate_checkpoint in VC.
+    destruct (st_len St P st <? t) eqn:EL; [discriminate|]. apply N.ltb_ge in EL.
+    destruct (ws_warp cw =? st_u0 st) eqn:EW; cbn [negb] in VC; [|discriminate]. apply N.eqb_eq in EW.
+    destruct (root (ws_init cw) =? st_boundary st) eqn:EB; cbn [negb] in VC; [|discriminate]. apply N.eqb_eq in EB.
+    destruct (ws_root St root cw =? hash) eqn:EH; cbn [negb] in VC; [|discriminate]. apply N.eqb_eq in EH.
+    unfold Seek.validate_base in Hbase.
+    destruct (ws_warp b =? st_u0 st) eqn:BW; cbn [negb] in Hbase; [|discriminate]. apply N.eqb_eq in BW.
+    destruct (root (ws_init b) =? st_boundary st) eqn:BB; cbn [negb] in Hbase; [|discriminate]. apply N.eqb_eq in BB.
+    split; [exact EL|]. split; [auto|].
+    destruct (expected_root_at St P st t) as [expected|] eqn:EX; [|discriminate].
+    destruct (ws_root St root cw =? expected) eqn:ER; cbn [negb] in VC; [|discriminate]. apply N.eqb_eq in ER.
+    destruct (lenN (ws_hist cw) =? t) eqn:ELn; cbn [negb] in VC; [|discriminate]. apply N.eqb_eq in ELn.
+    destruct (ws_tx cw =? t) eqn:ETx; cbn [negb] in VC; [|discriminate]. apply N.eqb_eq in ETx.
+    unfold Seek.expected_root_at in EX.
+    destruct (N.eq_dec t 0) as [->|Ht].
+    - cbn in EX. inversion EX; subst expected. cbn [N.eqb] in VC.
+      destruct (ws_last cw) eqn:LA; [discriminate|].
+      destruct (ws_mat cw =? 0) eqn:EM; cbn [negb] in VC; [|discriminate]. apply N.eqb_eq in EM.
+      rewrite replay_zero in R. inversion R; subst w. unfold ws_root in *.
+      constructor; cbn; try congruence.
+      destruct (ws_hist cw); [reflexivity|]. unfold lenN in ELn. cbn in ELn. lia.
+    - destruct (t =? 0) eqn:E0; [apply N.eqb_eq in E0; lia|].
+      destruct (nthN (st_entries st) (t - 1)) as [le|] eqn:EN; [|discriminate]. inversion EX; subst expected.
+      destruct (check_hist P p_digest_field p_digest_calc p_decision (st_entries st) 0 (ws_hist cw)) eqn:CH; [discriminate|].
+      destruct (ws_mat cw =? e_out le) eqn:EM; cbn [negb] in VC; [|discriminate]. apply N.eqb_eq in EM.
+      destruct (opt_art_eqb (ws_last cw) (last_opt (ws_hist cw))) eqn:LA; cbn [andb] in VC; [|discriminate].
+      apply opt_art_eqb_eq in LA.
+      pose proof (replay_fields _ _ _ _ Ht R) as (e & En & Hr & Hm & Htx & Hla & _ & Hlen & Hsp & Hw & Hi).
+      rewrite EN in En. inversion En; subst e.
+      assert (Hhist : ws_hist cw = ws_hist w).
+      { eapply arts_spec_unique; [apply check_hist_spec; exact CH|exact Hsp|].
+        unfold lenN in *. lia. }
+      unfold ws_root in *. constructor; try congruence.
+  Qed.
+
+  Definition RootCollision : Prop := exists s1 s2 : St, s1 <> s2 /\ root s1 = root s2.
+
+  Lemma same_roots_eq_or_collision (St_eq_dec : forall a b : St, {a = b} + {a <> b}) cw w :
+    same_but_roots cw w -> cw = w \/ RootCollision.
+  Proof.
+    intros [H1 H2 H3 H4 H5 H6 H7].
+    destruct (St_eq_dec (ws_state cw) (ws_state w)) as [Es|Ns]; [|right; exists (ws_state cw), (ws_state w); auto].
+    destruct (St_eq_dec (ws_init cw) (ws_init w)) as [Ei|Ni]; [|right; exists (ws_init cw), (ws_init w); auto].
+    left. destruct cw, w; cbn in *; congruence.
+  Qed.
+
+  (* ---------------------------------------------------------------- arbitrary (foreign) checkpoints *)
+
+  Lemma run_op_inv_foreign (St_eq_dec : forall a b : St, {a = b} + {a <> b}) b st c o :
+    base_ok st b ->
+    verifies (st_entries st) b -> cps_valid st b -> cursor_inv st b c ->
+    (let '(st', c') := fst (run_op b (st, c) o) in
+     st_entries st' = st_entries st /\ st_u0 st' = st_u0 st /\ st_boundary st' = st_boundary st /\
+     cps_valid st' b /\ cursor_inv st' b c') \/ RootCollision.
+  Proof.
+    intros BO V CV I. destruct o.
+    - left. pose proof (run_op_inv b st c (OSeek St t) Logic.I V CV I) as H. cbn [Seek.run_op] in *.
+      destruct (seek_to st b c t) as [c' e]. cbn in *. tauto.
+    - left. pose proof (run_op_inv b st c (OStep St) Logic.I V CV I) as H. cbn [Seek.run_op] in *.
+      destruct (step st b c) as [c' e]. cbn in *. tauto.
+    - left. cbn. tauto.
+    - left. cbn. tauto.
+    - left. cbn. tauto.
+    - left. pose proof (run_op_inv b st c (OCheckpointHere St) Logic.I V CV I) as H. cbn [Seek.run_op] in *.
+      destruct (checkpoint_from_state st (c_ws c)) as [e|st'] eqn:A; cbn in *; [tauto|].
+      unfold Seek.checkpoint_from_state in A. apply add_checkpoint_entries in A. tauto.
+    - cbn [Seek.run_op]. destruct (add_checkpoint st tick hash cw) as [e|st'] eqn:A; cbn [fst].
+      + left. auto.
+      + pose proof (add_checkpoint_entries _ _ _ _ _ A) as (He & Hu & Hb & Hc).
+        assert (Hle : tick <= st_len St P st).
+        { unfold Seek.add_checkpoint in A. destruct (validate_checkpoint st tick hash cw) eqn:VC; [discriminate|].
+          unfold Seek.validate_checkpoint in VC. destruct (st_len St P st <? tick) eqn:EL; [discriminate|].
+          apply N.ltb_ge in EL. exact EL. }
+        pose proof (verifies_upto _ _ tick V Hle) as Vt.
+        destruct (replay (st_entries st) b tick) as [w et] eqn:R. cbn in Vt; subst et.
+        pose proof (checkpoint_sound_lemma _ _ _ _ _ _ _ V BO A R) as (_ & _ & SR).
+        destruct (same_roots_eq_or_collision St_eq_dec _ _ SR) as [->|Col]; [|right; exact Col].
+        left. split; [exact He|]. split; [exact Hu|]. split; [exact Hb|]. split.
+        * eapply add_valid_checkpoint; eauto.
+        * destruct I as [I1 I2]. split; [unfold Seek.st_len; rewrite He; exact I1|rewrite He; exact I2].
+  Qed.
+
+  Theorem run_ops_inv_foreign (St_eq_dec : forall a b : St, {a = b} + {a <> b}) b ops : forall st c,
+    base_ok st b ->
+    verifies (st_entries st) b -> cps_valid st b -> cursor_inv st b c ->
+    (let '(st', c') := fst (run_ops b (st, c) ops) in
+     st_entries st' = st_entries st /\ cps_valid st' b /\ cursor_inv st' b c') \/ RootCollision.
+  Proof.
+    induction ops as [|o r IH]; intros st c BO V CV I; cbn [Seek.run_ops].
+    - left. cbn. auto.
+    - destruct (run_op_inv_foreign St_eq_dec b st c o BO V CV I) as [H1|Col]; [|right; exact Col].
+      destruct (run_op b (st, c) o) as [[st1 c1] out]. cbn [fst] in H1. destruct H1 as (He & Hu & Hb & CV1 & I1).
+      assert (V1 : verifies (st_entries st1) b) by (rewrite He; exact V).
+      assert (BO1 : base_ok st1 b).
+      { destruct BO as [B1 B2]. split; [exact B1|]. unfold Seek.validate_base in *. rewrite Hu, Hb. exact B2. }
+      destruct (IH st1 c1 BO1 V1 CV1 I1) as [H2|Col]; [|right; exact Col].
+      left. destruct (run_ops b (st1, c1) r) as [[st2 c2] outs]. cbn [fst] in *. destruct H2 as (He2 & CV2 & I2).
+      split; [congruence|]. auto.
+  Qed.
+
+  Theorem seek_path_independent_foreign_lemma (St_eq_dec : forall a b : St, {a = b} + {a <> b}) st b r pin ops :
+    base_ok st b -> verifies (st_entries st) b -> cps_valid st b ->
+    (let c := snd (fst (run_ops b (st, new_cursor St r b pin) ops)) in
+     c_tick c <= st_len St P st /\ replay (st_entries st) b (c_tick c) = (c_ws c, None)) \/ RootCollision.
+  Proof.
+    intros BO V CV. pose proof BO as [Hb _].
+    destruct (run_ops_inv_foreign St_eq_dec b ops st _ BO V CV (new_cursor_inv st b r pin Hb)) as [H|Col];
+      [left|right; exact Col].
+    destruct (run_ops b (st, new_cursor St r b pin) ops) as [[st' c'] outs]. cbn [fst snd] in *.
+    destruct H as (He & _ & [H1 H2]). unfold Seek.st_len in *. rewrite He in *. auto.
+  Qed.
+
   (* ---------------------------------------------------------------- the live run records a verifying history *)
+
+  Definition patch_wf (p : P) : Prop := p_digest_calc p = p_digest_field p.
+
+  Lemma live_run_length ps : forall s i parent es ss,
+    live_run s i parent ps = Some (es, ss) -> length es = length ps /\ length ss = length ps.
+  Proof.
+    induction ps as [|[p out] r IH]; intros s i parent es ss H; cbn in H.
+    - inversion H; subst. auto.
+    - destruct (apply s p) as [s'|s']; [|discriminate].
+      destruct (live_run s' (i + 1) _ r) as [[es' ss']|] eqn:L; [|discriminate].
+      inversion H; subst. apply IH in L. cbn. destruct L. split; congruence.
+  Qed.
+
+  Lemma live_run_loop ps : forall n s i parent es ss pre w l,
+    live_run s i parent ps = Some (es, ss) ->
+    Forall (fun po => patch_wf (fst po)) ps ->
+    lenN pre = i -> i + N.of_nat (length ps) < u64_max -> ws_state w = s -> (n <= length ps)%nat ->
+    exists w' l', advance_loop (pre ++ es) n i w l = (w', l', None) /\ ws_state w' = nth n (s :: ss) s.
+  Proof.
+    induction ps as [|[p out] r IH]; intros n s i parent es ss pre w l H WF Hpre Hlt Hw Hn.
+    - cbn in Hn. assert (n = O) by lia. subst n. cbn. eauto.
+    - destruct n as [|n']; [cbn; eauto|].
+      cbn [Seek.live_run] in H. destruct (apply s p) as [s'|s'] eqn:AP; [|discriminate].
+      remember (record_entry i s' parent p out) as e.
+      destruct (live_run s' (i + 1) (Some (e_commit e)) r) as [[es' ss']|] eqn:L; [|discriminate].
+      inversion H; subst es ss. clear H.
+      apply Forall_cons_iff in WF. destruct WF as [WF1 WF2]. cbn [fst] in WF1. unfold patch_wf in WF1.
+      cbn [Seek.advance_loop].
+      assert (En : nthN (pre ++ e :: es') i = Some e).
+      { unfold nthN. rewrite nth_error_app2 by (unfold lenN in Hpre; lia).
+        replace (N.to_nat i - length pre)%nat with O by (unfold lenN in Hpre; lia). reflexivity. }
+      rewrite En.
+      assert (A1 : exists a, advance_one i e w = (push_art St (set_state St w s') a, None)).
+      { clear L En. subst e. unfold Seek.advance_one. cbn [e_patch Seek.record_entry]. rewrite Hw, AP.
+        cbn [e_root e_parents e_pdig e_commit Seek.record_entry]. rewrite !N.eqb_refl. cbn [negb].
+        unfold Seek.artifacts. cbn [e_pdig e_receipt e_commit e_root Seek.record_entry].
+        rewrite N.eqb_refl, WF1, N.eqb_refl. cbn [negb].
+        unfold checked_increment. cbn [length] in Hlt.
+        assert (Hi : i <? u64_max = true) by (apply N.ltb_lt; lia). rewrite Hi. rewrite !N.eqb_refl. cbn [negb].
+        eexists. reflexivity. }
+      destruct A1 as [a A1]. rewrite A1.
+      cbn [length] in Hlt, Hn.
+      destruct (IH n' s' (i + 1) (Some (e_commit e)) es' ss' (pre ++ [e]) (push_art St (set_state St w s') a) (Some e) L WF2)
+        as (w' & l' & Hloop & Hst).
+      + rewrite lenN_app. unfold lenN at 2. cbn. lia.
+      + lia.
+      + reflexivity.
+      + lia.
+      + rewrite <- app_assoc in Hloop. cbn [app] in Hloop. exists w', l'. split; [exact Hloop|].
+        change (nth (Datatypes.S n') (s :: s' :: ss') s) with (nth n' (s' :: ss') s). rewrite Hst. apply nth_indep.
+        apply live_run_length in L. destruct L as [_ Hss]. cbn [length]. lia.
+  Qed.
+
+  (* The history appended by the live run verifies, and replaying it to tick t yields the graph state the live
+     run held after t commits (patches are well formed: stored digest = recomputed digest). *)
+  Theorem live_run_replays_lemma s ps es ss b :
+    live_run s 0 None ps = Some (es, ss) ->
+    Forall (fun po => patch_wf (fst po)) ps -> lenN ps < u64_max -> ws_init b = s ->
+    verifies es b /\
+    forall t, t <= lenN es -> ws_state (fst (replay es b t)) = nth (N.to_nat t) (s :: ss) s.
+  Proof.
+    intros L WF Hlt Hb.
+    pose proof (live_run_length _ _ _ _ _ _ L) as [Hle _].
+    assert (Key : forall t, t <= lenN es -> t <> 0 ->
+              snd (replay es b t) = None /\ ws_state (fst (replay es b t)) = nth (N.to_nat t) (s :: ss) s).
+    { intros t Ht H0. rewrite replay_unfold by exact H0.
+      destruct (live_run_loop ps (N.to_nat t) s 0 None es ss [] (base_from_initial St b) None L WF) as (w' & l' & Hloop & Hst).
+      - reflexivity.
+      - unfold lenN in Hlt. lia.
+      - exact Hb.
+      - unfold lenN in Ht. lia.
+      - cbn [app] in Hloop. rewrite Hloop. cbn [fst snd]. split; [reflexivity|].
+        unfold Seek.finalize. destruct (t =? 0); cbn; exact Hst. }
+    split.
+    - unfold verifies. destruct (N.eq_dec (lenN es) 0) as [E|E]; [rewrite E; reflexivity|].
+      apply Key; [lia|exact E].
+    - intros t Ht. destruct (N.eq_dec t 0) as [->|H0]; [rewrite replay_zero; cbn; exact Hb|].
+      apply Key; assumption.
+  Qed.
 
 End SeekProofs.
